@@ -17,7 +17,7 @@ RULE = (
     "expected text built from the reference FORWARD neighbour lists: lines in universe order (or sorted by the "
     "key), each `r(v) + ' -> ' + ', '.join(r(n))` with neighbours in neighbors() order (stable-sorted by the key "
     "when given); for a vertex without neighbours both 'x -> ' and 'x ->' are accepted; empty universe => None.  "
-    "Non-trivial = >= 1 member without neighbours and >= 1 member with >= 2 neighbours; distinct = distinct case value."
+    "Every case renders twice: after the first call the rendering attributes change, one member leaves and one joins, and rfunc is switched; the second text must reflect the new state only.  Non-trivial = >= 1 member without neighbours and >= 1 member with >= 2 neighbours; distinct = distinct case value."
 )
 ASSUMPTIONS = [
     "only directed/undirected-family links (basic_render uses neighbors() defaults)",
@@ -41,14 +41,24 @@ def strategy(tier):
 
 
 def check_case(case):
+    vs, ls, u = render.build(case)
+    info = _check_render(case, vs, ls, u, 0)
+    if render.perturb(case, vs, ls, u):
+        # rendered again after attributes / membership changed, with another rfunc: nothing of the first call may linger
+        info2 = _check_render(case, vs, ls, u, 1)
+        info["classes"] = sorted(set(info["classes"]) | {"re-rendered-after-change"})
+        info["nt"] = info["nt"] or info2["nt"]
+    return info
+
+
+def _check_render(case, vs, ls, u, phase):
     from edgegraph.output import plaintext
 
-    vs, ls, u = render.build(case)
     G = graphs.abstract(vs, ls)
-    use_r = bool(case["opt"] & 1)
+    use_r = bool(case["opt"] & 1) if phase == 0 else not bool(case["opt"] & 32)
     sortsel = (case["opt"] >> 1) % 4
     # renderings may end in the characters of the separator (a comma, a blank): nothing of them may be lost
-    fmt = ["t%d", "t%d,", "t%d ", " ,t%d, ", "%d->", "t%d", "t%d", "t%d"][case["extra"] % 8]
+    fmt = ["t%d", "t%d,", "t%d ", " ,t%d, ", "%d->", "t%d", "t%d", "t%d"][(case["extra"] + 3 * phase) % 8]
     title = lambda v: fmt % v.i
     r = title if use_r else repr
     keys = [None, lambda v: v.i, lambda v: -v.i, lambda v: v.i % 2][sortsel]
